@@ -66,13 +66,14 @@ fn expand(toks: &[String]) -> Vec<String> {
 }
 fn compact(case: &str) -> String {
     let t: Vec<&str> = case.split_whitespace().collect();
+    if t[0].starts_with("seq:") { return case.to_string(); }
     let n = match t[0] { "dec" => 2, "enc" | "sign" | "wit" => 1, _ => 0 };
     let head = t[..=n].join(":");
     if t.len() > n + 1 { format!("{} {}", head, t[n + 1..].join(" ")) } else { head }
 }
 /// observation = class token (`ok` | `err` | `panic`) followed by the fields
 fn classed(obs: String) -> String {
-    if obs == "err" || obs == "panic" || obs.starts_with("harness-") { obs } else { format!("ok {}", obs) }
+    if obs == "err" || obs == "panic" || obs.starts_with("harness-") || obs.starts_with("seq ") { obs } else { format!("ok {}", obs) }
 }
 
 // ---------------- the implementation on one case ----------------
@@ -211,6 +212,20 @@ fn exec(t: &[&str]) -> String {
              match Bip32PrivateKey::from_bytes(&kf.as_bytes()) { Ok(x) => ok(&x.as_bytes()), Err(_) => "err".into() },
              ok(&kf.to_raw_key().to_public().as_bytes()), ok(&pf.to_raw_key().as_bytes()), ok(&kf.chaincode()), ok(&pf.chaincode())].join(" ")
         }
+        ["pubderive", xpub, _n, path @ ..] => {
+            let mut p = match Bip32PublicKey::from_bytes(&b(xpub)) { Ok(p) => p, Err(_) => return "err".into() };
+            for s in path.iter() { p = match p.derive(s.parse().unwrap()) { Ok(q) => q, Err(_) => return "err".into() }; }
+            ok(&p.as_bytes())
+        }
+        ["seq", _name, rest @ ..] => {
+            // the steps run one after the other in this thread; each is guarded on its own so that a panic is one step's observation
+            let mut outs: Vec<String> = vec![];
+            for st in rest.split(|t| *t == ";") {
+                let toks: Vec<String> = expand(&st.iter().map(|x| x.to_string()).collect::<Vec<String>>());
+                outs.push(guarded(move || { let tv: Vec<&str> = toks.iter().map(|x| x.as_str()).collect(); classed(exec(&tv)) }));
+            }
+            format!("seq {}", outs.join(" ; "))
+        }
         ["bip39", entropy, password] => {
             let k = Bip32PrivateKey::from_bip39_entropy(&b(entropy), &b(password));
             [ok(&k.as_bytes()), match Bip32PrivateKey::from_bytes(&k.as_bytes()) { Ok(x) => ok(&x.as_bytes()), Err(_) => "err".into() }].join(" ")
@@ -308,10 +323,22 @@ impl Tab {
 
 const HRPS: [&str; 7] = ["ed25519_sk", "ed25519e_sk", "ed25519_pk", "ed25519_sig", "xprv", "xpub", "legacy_xprv"];
 
-fn tabulate(t: &[&str]) -> String {
+fn tabulate(t: &[&str]) -> String { let mut tab = Tab::new(); tabulate_into(&mut tab, t); tab.render() }
+fn tabulate_into(tab: &mut Tab, t: &[&str]) {
     let b = |s: &str| unhex_or_dash(s);
-    let mut tab = Tab::new();
     match t {
+        ["seq", _name, rest @ ..] => {
+            for st in rest.split(|x| *x == ";") {
+                let toks: Vec<String> = expand(&st.iter().map(|x| x.to_string()).collect::<Vec<String>>());
+                let tv: Vec<&str> = toks.iter().map(|x| x.as_str()).collect();
+                tabulate_into(tab, &tv);
+            }
+        }
+        ["pubderive", xpub, _n, path @ ..] => {
+            let mut p = Some(b(xpub));
+            if p.as_ref().map(|x| x.len()) != Some(64) { return; }
+            for s in path.iter() { p = match p { Some(q) => tab.xpub_derive(&q, s.parse().unwrap()), None => None }; }
+        }
         ["enc", tk, bs] => {
             let tk: usize = tk.parse().unwrap();
             if let Some(s) = tab.b32_enc(HRPS[tk.min(6)], &b(bs)) { tab.b32_dec(&s); }
@@ -339,7 +366,7 @@ fn tabulate(t: &[&str]) -> String {
             for s in path.iter() {
                 let i: u32 = s.parse().unwrap();
                 p = match p { Some(q) => tab.xpub_derive(&q, i), None => None };
-                k = match tab.xprv_derive(&k, i) { Some(x) => x, None => return tab.render() };
+                k = match tab.xprv_derive(&k, i) { Some(x) => x, None => return };
             }
             tab.xprv_public(&k);
             if k.len() >= 64 { tab.ed_ext_pub(&k[..64]); }
@@ -373,16 +400,21 @@ fn tabulate(t: &[&str]) -> String {
         }
         _ => {}
     }
-    tab.render()
 }
 
-// ---------------- generators ----------------
+// ---------------- generators (inputs are built from the primitives only, never from the implementation under test) ----------------
+fn bip39_root(entropy: &[u8], password: &[u8]) -> Vec<u8> { prim::xprv_normalize3(&prim::pbkdf2_sha512(password, entropy, 4096, 96)) }
+fn x128_of(k: &[u8]) -> Vec<u8> { [k[..64].to_vec(), prim::ed_ext_pub(&k[..64]), k[64..].to_vec()].concat() }
+/// a root at the top of the admissible scalar range: scalar = 0x5f ff … f8 (bits 255/254/253 = 0,1,0), children carry into bit 253
+fn top_xprv(r: &mut Rng) -> Vec<u8> {
+    let mut v = r.bytes(96); for i in 1..31 { v[i] = 0xff; } v[0] = 0xf8; v[31] = if r.chance(1, 2) { 0x5f } else { 0x7f }; v
+}
 fn valid_xprv(r: &mut Rng) -> Vec<u8> {
     match r.below(4) {
         0 => { let mut v = r.bytes(96); v[0] &= 0xf8; v[31] = (v[31] & 0x3f) | 0x40; v }          // bits forced by hand
         1 => prim::xprv_normalize3(&r.bytes(96)),
         2 => { let n = *r.pick(&[12usize, 16, 20, 24, 32]); let pwl = r.below(12) as usize;
-               Bip32PrivateKey::from_bip39_entropy(&r.bytes(n), &r.bytes(pwl)).as_bytes() }
+               bip39_root(&r.bytes(n), &r.bytes(pwl)) }
         _ => { let mut k = prim::xprv_normalize3(&r.bytes(96)); for _ in 0..r.range(1, 3) { k = prim::xprv_derive(&k, idx(r)); } k }
     }
 }
@@ -414,13 +446,73 @@ fn mutate_case(s: &str, r: &mut Rng) -> String {
 }
 fn th(s: &str) -> String { hx(s.as_bytes()) }
 
+/// One `seq:<name> step ; step ; …` line per relation pattern. Every step is an ordinary case; the model treats each step on its
+/// own, so a result that depends on what was called before is a disagreement.
+fn sequences(r: &mut Rng) -> Vec<String> {
+    let seq = |name: &str, steps: Vec<String>| format!("seq:{} {}", name, steps.iter().map(|s| compact(s)).collect::<Vec<_>>().join(" ; "));
+    let hexs = |b: &[u8]| th(&hex::encode(b));
+    let der = |k: &[u8], path: &[u32]| format!("derive {} {} {}", hx(k), path.len(), path.iter().map(|i| i.to_string()).collect::<Vec<_>>().join(" "));
+    let pder = |p: &[u8], path: &[u32]| format!("pubderive {} {} {}", hx(p), path.len(), path.iter().map(|i| i.to_string()).collect::<Vec<_>>().join(" "));
+    let mut v = vec![];
+    let a = valid_xprv(r);
+    let with_cc = |k: &[u8], cc: &[u8]| [k[..64].to_vec(), cc.to_vec()].concat();
+    let b_cc = with_cc(&a, &r.bytes(32));                 // same key part, other chain code
+    let c_key = with_cc(&valid_xprv(r), &a[64..]);        // other key, same chain code
+    let (i, j) = (soft_idx(r), soft_idx(r));
+    let (pa, pb, pc) = (prim::xprv_public(&a), prim::xprv_public(&b_cc), prim::xprv_public(&c_key));
+    v.push(seq("samekey-othercc", vec![der(&a, &[i]), der(&b_cc, &[i]), der(&a, &[i]), pder(&pb, &[i]), pder(&pa, &[i]), pder(&pb, &[i, j])]));
+    v.push(seq("samecc-otherkey", vec![der(&a, &[i]), der(&c_key, &[i]), pder(&pa, &[i]), pder(&pc, &[i]), pder(&pa, &[i])]));
+    v.push(seq("sameparent-otherindex", vec![der(&a, &[i]), der(&a, &[j]), der(&a, &[i]), pder(&pa, &[j]), pder(&pa, &[i]), pder(&pa, &[i | 0x8000_0000]), pder(&pa, &[i])]));
+    v.push(seq("sameindex-otherparent", vec![pder(&pa, &[i]), pder(&pc, &[i]), pder(&pb, &[i]), der(&c_key, &[i, j]), der(&a, &[i, j]), der(&b_cc, &[i, j])]));
+    v.push(seq("repeat", vec![der(&a, &[i, j]), der(&a, &[i, j]), pder(&pa, &[i, j]), pder(&pa, &[i, j]), der(&a, &[i, j])]));
+    { // a wallet-like scan account/role/0..n from the public side interleaved with private derivations of two accounts sharing key material
+        let acct_a = { let mut k = a.clone(); for h in [0x8000_0000u32 + 1852, 0x8000_0000 + 1815, 0x8000_0000] { k = prim::xprv_derive(&k, h); } k };
+        let acct_b = with_cc(&acct_a, &r.bytes(32));
+        let (qa, qb) = (prim::xprv_public(&acct_a), prim::xprv_public(&acct_b));
+        let mut steps = vec![];
+        for n in 0..3u32 { steps.push(pder(&qa, &[0, n])); steps.push(pder(&qb, &[0, n])); steps.push(der(&acct_b, &[0, n])); steps.push(der(&acct_a, &[0, n])); }
+        v.push(seq("scan-interleaved", steps));
+    }
+    { // the same key bytes used as different key kinds one after the other
+        let h = r.bytes(32); let m = r.bytes(40);
+        let leg = { let mut k = a.clone(); k[31] &= 0x5f; k };
+        v.push(seq("kinds", vec![
+            format!("sign 1 {} {} {} {}", hx(&a[..64]), hx(&m), hx(&h), hx(&a[..64])), format!("sign 0 {} {} {} {}", hx(&a[..32]), hx(&m), hx(&h), hx(&a[32..64])),
+            format!("wit 2 {} {} ~ ~", hx(&h), hx(&a)), format!("wit 3 {} {} ~ 1", hx(&h), hx(&leg)), format!("wit 1 {} {} ~ ~", hx(&h), hx(&a[..64])),
+            format!("wit 0 {} {} ~ ~", hx(&h), hx(&a[..32])), format!("wit 2 {} {} ~ ~", hx(&h), hx(&b_cc)), format!("wit 2 {} {} ~ ~", hx(&h), hx(&a)),
+            format!("x128 {}", hx(&a)), format!("x128 {}", hx(&b_cc)), format!("dec 4 3 {}", hx(&x128_of(&a))), format!("dec 4 3 {}", hx(&x128_of(&b_cc))),
+            format!("enc 4 {}", hx(&a)), format!("enc 6 {}", hx(&leg)), format!("enc 1 {}", hx(&a[..64])), format!("enc 5 {}", hx(&pa)), format!("enc 5 {}", hx(&pb)),
+        ]));
+        // one bech32 payload under several HRPs decoded as several types in turn
+        let u5 = prim::b32_to_base32(&a);
+        let (sx, sl) = (prim::b32_encode("xprv", &u5).unwrap(), prim::b32_encode("legacy_xprv", &u5).unwrap());
+        v.push(seq("hrps", vec![format!("dec 4 2 {}", th(&sx)), format!("dec 6 2 {}", th(&sx)), format!("dec 6 2 {}", th(&sl)), format!("dec 4 2 {}", th(&sl)),
+                                format!("dec 4 2 {}", th(&sx)), format!("dec 8 2 {}", th(&sx)), format!("dec 1 2 {}", th(&sx))]));
+    }
+    { // encryption / decryption under different passwords, salts and nonces one after the other
+        let (pw1, pw2) = (r.bytes(6), r.bytes(6)); let (s1, s2) = (r.bytes(32), r.bytes(32)); let (n1, n2) = (r.bytes(12), r.bytes(12));
+        let dl = *r.pick(&[0usize, 1, 20, 64]); let d = r.bytes(dl);
+        let cont = |pw: &[u8], s: &[u8], n: &[u8]| { let k = prim::pbkdf2_sha512(pw, s, 19162, 32); let (c, t) = prim::aead_enc(&k, n, &d); [s.to_vec(), n.to_vec(), t, c].concat() };
+        let (c11, c21) = (cont(&pw1, &s1, &n1), cont(&pw2, &s1, &n1));
+        v.push(seq("passwords", vec![
+            format!("enc3 {} {} {} {}", hexs(&pw1), hexs(&s1), hexs(&n1), hexs(&d)), format!("enc3 {} {} {} {}", hexs(&pw2), hexs(&s1), hexs(&n1), hexs(&d)),
+            format!("dec3 {} {}", hexs(&pw2), hexs(&c11)), format!("dec3 {} {}", hexs(&pw1), hexs(&c11)), format!("dec3 {} {}", hexs(&pw1), hexs(&c21)),
+            format!("dec3 {} {}", hexs(&pw2), hexs(&c21)), format!("dec3 {} {}", hexs(&pw2), hexs(&c21)),
+            format!("enc3 {} {} {} {}", hexs(&pw1), hexs(&s2), hexs(&n1), hexs(&d)), format!("enc3 {} {} {} {}", hexs(&pw1), hexs(&s1), hexs(&n2), hexs(&d)),
+            format!("enc3 {} {} {} {}", hexs(&pw1), hexs(&s1), hexs(&n1), hexs(&d)), format!("dec3 {} {}", hexs(&pw1), hexs(&c11[..c11.len().max(61) - 1])),
+            format!("dec3 {} {}", hexs(&pw1), hexs(&c11)),
+        ]));
+    }
+    v
+}
+
 fn gen(dir: &str) {
     let seed = seed_from_env();
     let thorough = is_thorough();
     let mut r = Rng::new(seed ^ 0xC12);
     let mut out = Out::new(dir);
     let emit = |out: &mut Out, case: String| {
-        let toks: Vec<String> = case.split_whitespace().map(|s| s.to_string()).collect();
+        let toks: Vec<String> = expand(&compact(&case).split_whitespace().map(|s| s.to_string()).collect::<Vec<String>>());
         let tv: Vec<&str> = toks.iter().map(|s| s.as_str()).collect();
         let table = tabulate(&tv);
         let toks2 = toks.clone();
@@ -492,7 +584,7 @@ fn gen(dir: &str) {
     for l in lens.iter() { let v = r.bytes(*l); emit(&mut out, format!("dec 4 3 {}", hx(&v))); }
     for _ in 0..(10 * scale) {
         let k = valid_xprv(&mut r);
-        let x = Bip32PrivateKey::from_bytes(&k).unwrap().to_128_xprv();
+        let x = x128_of(&k);
         emit(&mut out, format!("dec 4 3 {}", hx(&x)));
         let mut y = x.clone(); let i = r.range(64, 95) as usize; y[i] ^= 1; emit(&mut out, format!("dec 4 3 {}", hx(&y)));   // embedded public key is not read
         let mut y = x.clone(); y[31] ^= *r.pick(&[0x40u8, 0x80]); emit(&mut out, format!("dec 4 3 {}", hx(&y)));
@@ -544,6 +636,20 @@ fn gen(dir: &str) {
         emit(&mut out, format!("derive {} 2 2 0", hx(&acct)));
         emit(&mut out, format!("derive {} 0", hx(&r.bytes(96))));
     }
+    for _ in 0..(6 * scale) { // children of roots at the top of the admissible scalar range must still round-trip
+        let root = top_xprv(&mut r); let depth = r.range(1, 6) as usize;
+        let path: Vec<String> = (0..depth).map(|_| idx(&mut r).to_string()).collect();
+        emit(&mut out, format!("derive {} {} {}", hx(&root), depth, path.join(" ")));
+        emit(&mut out, format!("enc 4 {}", hx(&root)));
+    }
+    for _ in 0..(6 * scale) {
+        let xp = match r.below(4) { 0 => r.bytes(64), 1 => { let l = *r.pick(&[0usize, 32, 63, 65, 96]); r.bytes(l) } _ => prim::xprv_public(&valid_xprv(&mut r)) };
+        let depth = r.below(5) as usize; let hard = r.chance(1, 4);
+        let path: Vec<String> = (0..depth).map(|_| if hard { idx(&mut r) } else { soft_idx(&mut r) }.to_string()).collect();
+        emit(&mut out, format!("pubderive {} {} {}", hx(&xp), depth, path.join(" ")));
+    }
+    // --- sequences of calls in this one thread with deliberately related arguments (hidden state between calls) ---
+    for _ in 0..(4 * scale) { for s in sequences(&mut r) { emit(&mut out, s); } }
     for _ in 0..(8 * scale) {
         let n = *r.pick(&[0usize, 12, 16, 20, 24, 28, 32, 64]); let pwl = *r.pick(&[0usize, 0, 1, 8, 40]);
         emit(&mut out, format!("bip39 {} {}", hx(&r.bytes(n)), hx(&r.bytes(pwl))));
@@ -618,7 +724,7 @@ fn main() {
         Some("witnesses") => { // the corpus lines: witnesses of the repaired defects and hand-picked corners, with their tables
             let hexs = |b: &[u8]| th(&hex::encode(b));
             let key96: Vec<u8> = { let mut v: Vec<u8> = (0..96u8).collect(); v[0] = 0x08; v[31] = 0x5f; v };
-            let x128 = Bip32PrivateKey::from_bytes(&key96).unwrap().to_128_xprv();
+            let x128 = x128_of(&key96);
             let h28 = prim::b32_to_base32(&[7u8; 28]);
             let mut badpad = h28.clone(); let l = badpad.len() - 1; badpad[l] |= 1;
             let mut toolong = h28.clone(); toolong.push(0);
@@ -637,6 +743,10 @@ fn main() {
                 format!("wit 2 {} {} {} 1097911063", hx(&[9u8; 32]), hx(&key96), hx(&[0x83, 0x58, 0x1c])),
                 format!("wit 3 {} {} {} ~", hx(&[9u8; 32]), hx(&{ let mut v = vec![0x22u8; 96]; v[31] = 0x40; v }), hx(&vec![0xabu8; 30])),
                 format!("derive {} 5 {} {} {} 0 0", hx(&key96), 0x8000_0000u32 + 1852, 0x8000_0000u32 + 1815, 0x8000_0000u32),
+                // known finding C12-bit253-root-child-overflow: scalar 2^255 - 8 (bit 253 set) is accepted, its child is no valid key
+                format!("derive {} 1 0", hx(&{ let mut v = vec![0xffu8; 96]; v[0] = 0xf8; v[31] = 0x7f; for b in v[64..].iter_mut() { *b = 0x33; } v })),
+                // the top of the ADMISSIBLE range (bit 253 clear): children carry into bit 253 and must still round-trip
+                format!("derive {} 2 0 {}", hx(&{ let mut v = vec![0xffu8; 96]; v[0] = 0xf8; v[31] = 0x5f; for b in v[64..].iter_mut() { *b = 0x33; } v }), 0x8000_0000u32),
             ];
             for (i, l) in lines.iter().enumerate() {
                 let tv: Vec<&str> = l.split_whitespace().collect();
